@@ -179,19 +179,22 @@ pub fn crashed(o: &Outcome) -> bool {
 /// Structural crash signature.
 pub fn crash_signature(o: &Outcome) -> Option<String> {
     if let Some((site, msg)) = crate::outparse::panic_site(&o.stderr) {
-        // site = path:line:col ; keep path:line
-        let mut parts: Vec<&str> = site.rsplitn(2, ':').collect();
-        parts.reverse();
-        let site_nocol = parts.first().copied().unwrap_or(&site).to_string();
-        let head: String = msg.chars().take(48).collect();
-        // strip registry prefix
-        let short = match site_nocol.find("/registry/src/") {
-            Some(i) => {
-                let rest = &site_nocol[i + "/registry/src/".len()..];
-                rest.splitn(2, '/').nth(1).unwrap_or(rest).to_string()
-            }
-            None => site_nocol.clone(),
+        // site = path:line:col. The signature keeps the source file and the head of
+        // the message but no line number, so that edits elsewhere in the file do not
+        // turn a listed finding into a "new" one.
+        let path = site.split(':').next().unwrap_or(&site).to_string();
+        let short = if let Some(i) = path.find("/registry/src/") {
+            let rest = &path[i + "/registry/src/".len()..];
+            rest.splitn(2, '/').nth(1).unwrap_or(rest).to_string()
+        } else if path.ends_with("/out/lang.rs") {
+            "parser/lang.lalrpop(generated)".to_string()
+        } else if let Some(i) = path.find("/rustc/") {
+            let rest = &path[i + "/rustc/".len()..];
+            rest.splitn(2, '/').nth(1).unwrap_or(rest).to_string()
+        } else {
+            path.clone()
         };
+        let head: String = msg.chars().take(48).collect();
         return Some(format!("panic:{short}:{head}"));
     }
     if o.stderr.contains("has overflowed its stack") {
